@@ -322,6 +322,16 @@ def _family(method, gen):
     return fam
 
 
+def _rvals_name(cl):
+    """the local of calc_line_colors that holds the normalised values: what the colour map is applied to, element by element"""
+    out = set()
+    for n in walk_shallow(cl.node):
+        if isinstance(n, (ast.GeneratorExp, ast.ListComp)) and len(n.generators) == 1 and isinstance(n.elt, ast.Call) and norm(n.elt.func) == "self.cmap" and isinstance(n.generators[0].iter, ast.Name):
+            out.add(n.generators[0].iter.id)
+    need(len(out) == 1, "anchor lost: the normalised values the colour map is applied to in calc_line_colors")
+    return out.pop()
+
+
 def _mask_terms(fi, stmts, container):
     """A point mask built as a conjunction of np.isfinite(<container>[k]) terms, possibly over several statements
     (`m = ...`, `m &= ...`).  -> (set of keys k, None) or (None, (node, why)) when a recognised-wrong term is met;
@@ -673,9 +683,10 @@ def c17_data_rules(ctx, rid_roles, rid_mask, rid_lock, rid_color):
                     return ast.copy_location(ast.Name(id="_", ctx=n.ctx), n) if n.id == v else n
             return norm(Rn().visit(ast.parse(ast.unparse(e.elt), mode="eval").body)), norm(e.generators[0].iter)
         return None
+    RV = _rvals_name(cl)
     for cval, src in ((NOTNONE, "self._c_cols"), (NONE, "self._z_vals")):
         fl = Flow(g, {"self.c_coo": cval}).run()
-        rv = [n for n in g.nodes if n.id in fl.visited and n.kind == "stmt" and isinstance(n.ast, ast.Assign) and norm(n.ast.targets[0]) == "rvals"]
+        rv = [n for n in g.nodes if n.id in fl.visited and n.kind == "stmt" and isinstance(n.ast, ast.Assign) and norm(n.ast.targets[0]) == RV]
         need(rv, "anchor lost: `rvals` in calc_line_colors")
         shapes = [(n, gshape(n.ast.value)) for n in rv]
         good = [n for n, sh in shapes if sh == ("self._color_norm(_)", src)]
@@ -688,7 +699,7 @@ def c17_data_rules(ctx, rid_roles, rid_mask, rid_lock, rid_color):
         else:
             raise AnalysisError("idiom changed: rvals in calc_line_colors: %s" % [norm(n.ast.value) for n in rv])
     # numeric versus non-numeric z values: the test must hold for numpy scalars (array elements are np.int64 / np.float64, not int)
-    lins = [n for n in g.nodes if n.kind == "stmt" and isinstance(n.ast, ast.Assign) and norm(n.ast.targets[0]) == "rvals" and gshape(n.ast.value) is None and "linspace" in norm(n.ast.value)]
+    lins = [n for n in g.nodes if n.kind == "stmt" and isinstance(n.ast, ast.Assign) and norm(n.ast.targets[0]) == RV and gshape(n.ast.value) is None and "linspace" in norm(n.ast.value)]
     for ln in lins:
         p_ = getattr(ln.ast, "_parent", None)
         while p_ is not None and not isinstance(p_, ast.If):
@@ -714,7 +725,7 @@ def c17_data_rules(ctx, rid_roles, rid_mask, rid_lock, rid_color):
             rc.ok("colour quantity test `%s`" % norm(t0))
         else:
             raise AnalysisError("idiom changed: test selecting the non-numeric colour fallback: `%s`" % norm(t0))
-    over_rvals = [(n, gshape(n.ast.value)) for n in g.nodes if n.kind == "stmt" and isinstance(n.ast, ast.Assign) and gshape(n.ast.value) and gshape(n.ast.value)[1] == "rvals"]
+    over_rvals = [(n, gshape(n.ast.value)) for n in g.nodes if n.kind == "stmt" and isinstance(n.ast, ast.Assign) and gshape(n.ast.value) and gshape(n.ast.value)[1] == RV]
     cols = [n for n in g.nodes if n.kind == "stmt" and isinstance(n.ast, ast.Assign) and norm(n.ast.targets[0]) == "self._cols"]
     need(cols, "anchor lost: self._cols in calc_line_colors")
     if len(over_rvals) == 1 and over_rvals[0][1][0] == "self.cmap(_)":
@@ -728,20 +739,20 @@ def c17_data_rules(ctx, rid_roles, rid_mask, rid_lock, rid_color):
         rc.bad(ctx.finding(rid_color, cl, over_rvals[0][0].ast, "colours are not the colour map applied to the normalised values", construct="cols"), "cols")
     else:
         raise AnalysisError("idiom changed: no comprehension over rvals in calc_line_colors")
-    coo = single_def(cn, "coo")
-    need(coo, "anchor lost: `coo` in calc_color_norm")
-    ce = coo[1]
-    verdict = None
-    if isinstance(ce, ast.IfExp) and isinstance(ce.test, ast.Compare) and len(ce.test.ops) == 1 and norm(ce.test.comparators[0]) == "None" and norm(ce.test.left) == "self.c_coo":
-        if_none, if_some = (ce.body, ce.orelse) if isinstance(ce.test.ops[0], ast.Is) else (ce.orelse, ce.body) if isinstance(ce.test.ops[0], ast.IsNot) else (None, None)
-        if if_none is not None:
-            verdict = norm(if_none) == "self.z_coo" and norm(if_some) == "self.c_coo"
-    if verdict is True:
+    coos = sorted({x.slice.id for x in ast.walk(cn.node) if isinstance(x, ast.Subscript) and norm(x.value) == "self._ds" and isinstance(x.slice, ast.Name)})
+    need(len(coos) == 1, "anchor lost: the colour quantity `self._ds[<coo>]` in calc_color_norm (%s)" % coos)
+    COO = coos[0]
+    try:
+        if_none = sym_expand(ctx, cn, ast.Name(id=COO, ctx=ast.Load()), {"self.c_coo": NONE})
+        if_some = sym_expand(ctx, cn, ast.Name(id=COO, ctx=ast.Load()), {"self.c_coo": NOTNONE})
+    except AnalysisError as e_:
+        raise AnalysisError("idiom changed: colour quantity in calc_color_norm (%s)" % e_)
+    if (if_none, if_some) == ("self.z_coo", "self.c_coo"):
         rc.ok("the norm's limits come from the colour quantity (c if given else z)")
-    elif verdict is False or norm(ce) in ("self.z_coo", "self.c_coo"):
-        rc.bad(ctx.finding(rid_color, cn, ce, "the colour norm's limits are not taken from `z_coo if c_coo is None else c_coo`", construct="norm-quantity"), "norm quantity")
+    elif {if_none, if_some} <= {"self.z_coo", "self.c_coo"}:
+        rc.bad(ctx.finding(rid_color, cn, cn.node, "the colour norm's limits are taken from `%s` when c is absent and `%s` when it is given, not from `z_coo if c_coo is None else c_coo`" % (if_none, if_some), construct="norm-quantity"), "norm quantity")
     else:
-        raise AnalysisError("idiom changed: colour quantity in calc_color_norm: %s" % norm(ce))
+        raise AnalysisError("idiom changed: colour quantity in calc_color_norm: %s / %s" % (if_none, if_some))
     LIM = ("zlims", "vmin", "vmax", "zmin", "zmax")
     ors = [b for b in ast.walk(cn.node) if isinstance(b, ast.BoolOp) and isinstance(b.op, ast.Or) and any(w in norm(b.values[0]) for w in LIM)]
     truthy = [t.test for t in ast.walk(cn.node) if isinstance(t, (ast.If, ast.IfExp)) and
@@ -949,6 +960,19 @@ def method_text(ctx, f, depth=2, seen=None):
     return " ".join(out)
 
 
+def _ax_name(f):
+    """the local of an infiniplot drawing method that holds the panel's Axes: the one taken out of self.axs per
+    location (directly, or by a helper method of the class)"""
+    names = set()
+    for n in walk_shallow(f.node):
+        if isinstance(n, ast.Assign) and isinstance(n.targets[0], ast.Name) and any(isinstance(p_, ast.For) for p_ in _parents(n)):
+            v = n.value
+            if (isinstance(v, ast.Subscript) and norm(v.value) == "self.axs") or (isinstance(v, ast.Call) and isinstance(v.func, ast.Attribute) and norm(v.func.value) == "self" and "ax" in v.func.attr.lower() and any(norm(a_) == "loc" for a_ in v.args)):
+                names.add(n.targets[0].id)
+    need(len(names) == 1, "anchor lost: the panel Axes local in %s (%s)" % (f.name, sorted(names)))
+    return names.pop()
+
+
 def c18_rules(ctx):
     prog = ctx.prog
     I = prog.need_cls(INF + ".Infiniplotter")
@@ -963,7 +987,7 @@ def c18_rules(ctx):
     # ---- R2 roles at sinks
     rr = ctx.rule("C18.R2", "role agreement at ax.plot / errorbar / fill_between / pcolormesh / text sinks", floor=5)
     def sink(f, meth, spec):
-        calls = [c for c in walk_shallow(f.node) if isinstance(c, ast.Call) and isinstance(c.func, ast.Attribute) and c.func.attr == meth and norm(c.func.value) == "ax"]
+        calls = [c for c in walk_shallow(f.node) if isinstance(c, ast.Call) and isinstance(c.func, ast.Attribute) and c.func.attr == meth and norm(c.func.value) == _ax_name(f)]
         need(calls, "anchor lost: ax.%s in %s" % (meth, f.name))
         for c in calls:
             for key, want in spec.items():
@@ -1016,9 +1040,10 @@ def c18_rules(ctx):
     need(len(heads) == 1, "anchor lost: location loop in plot_lines")
     H = heads[0]
     it = [b for b, l in g.succ[H.id] if l == "iter"][0]
-    plots = [n for n in g.nodes if any(isinstance(c.func, ast.Attribute) and c.func.attr == "plot" and norm(c.func.value) == "ax" for c in node_calls(n))]
+    AXL = _ax_name(pl)
+    plots = [n for n in g.nodes if any(isinstance(c.func, ast.Attribute) and c.func.attr == "plot" and norm(c.func.value) == AXL for c in node_calls(n))]
     conts = [n for n in g.nodes if n.kind == "stmt" and isinstance(n.ast, ast.Continue)]
-    artists = [n for n in g.nodes if any(isinstance(c.func, ast.Attribute) and norm(c.func.value) == "ax" and c.func.attr in ("plot", "errorbar", "fill_between", "text", "scatter") for c in node_calls(n))]
+    artists = [n for n in g.nodes if any(isinstance(c.func, ast.Attribute) and norm(c.func.value) == AXL and c.func.attr in ("plot", "errorbar", "fill_between", "text", "scatter") for c in node_calls(n))]
     skip = g.reachable(start=it, blocked_nodes=[p.id for p in plots] + [c.id for c in conts], skip_labels=("exc",)) | {it}
     if len(plots) != 1:
         r3.bad(ctx.finding("C18.R3", pl, pl.node, "%d ax.plot calls in the location loop" % len(plots), construct="plot-count"), "one plot")
@@ -1041,7 +1066,7 @@ def c18_rules(ctx):
     # ---- R4 panel orientation
     r4 = ctx.rule("C18.R4", "panel placement: axs[i_ax, j_ax] with i from the row mapping and j from the column mapping", floor=4)
     for f in (pl, ph):
-        axd = [v for _, v in assignments_to(f, "ax") if v is not None]
+        axd = [v for _, v in assignments_to(f, _ax_name(f)) if v is not None]
         need(len(axd) == 1, "anchor lost: the `ax` a slice is drawn on in %s" % f.name)
         for rv, cv in ((NOTNONE, NOTNONE), (NOTNONE, NONE), (NONE, NOTNONE), (NONE, NONE)):
             got = sym_expand(ctx, f, axd[0], {"self.row": rv, "self.col": cv}, stop=("loc",))
@@ -1214,7 +1239,7 @@ def c18_rules(ctx):
                 r8.bad(ctx.finding("C18.R8", pl, last[0].ast, "with join_across_missing %s the data mask ends as %s" % ("truthy" if val == TRUTHY else "falsy", sorted(lk)), construct="mask-polarity %s" % want), "mask polarity %s" % want)
             else:
                 raise AnalysisError("idiom changed: several data_mask definitions reach ax.plot")
-    pcalls = [c for c in walk_shallow(pl.node) if isinstance(c, ast.Call) and isinstance(c.func, ast.Attribute) and c.func.attr == "plot" and norm(c.func.value) == "ax"]
+    pcalls = [c for c in walk_shallow(pl.node) if isinstance(c, ast.Call) and isinstance(c.func, ast.Attribute) and c.func.attr == "plot" and norm(c.func.value) == _ax_name(pl)]
     need(len(pcalls) == 1 and len(pcalls[0].args) >= 2, "anchor lost: ax.plot(x, y) in plot_lines")
 
     def filtered(e):
@@ -1522,7 +1547,7 @@ def c18_structure_rules(ctx):
 
     # ---- R13: x taken per slice whenever x is a data variable
     r13 = ctx.rule("C18.R13", "x values of a slice: when x is a data variable they are selected per slice (never the whole variable), on every path to ax.plot", floor=2)
-    plots_ = [c for c in walk_shallow(pl.node) if isinstance(c, ast.Call) and isinstance(c.func, ast.Attribute) and c.func.attr == "plot" and norm(c.func.value) == "ax"]
+    plots_ = [c for c in walk_shallow(pl.node) if isinstance(c, ast.Call) and isinstance(c.func, ast.Attribute) and c.func.attr == "plot" and norm(c.func.value) == _ax_name(pl)]
     need(len(plots_) == 1 and plots_[0].args, "anchor lost: ax.plot in plot_lines")
     # chase the x argument back to the (possibly several) definitions of the raw x values
     xname = plots_[0].args[0]
@@ -1848,7 +1873,8 @@ def c17_extra_rules(ctx, rid_lim, rid_mv, rid_sel):
                         r.ok("z%s defaults to the data %simum" % (which, which))
                     else:
                         r.bad(ctx.finding(rid_lim, cn, n, "the default of z%s is the data's %s" % (which, calls[0]), construct="zlim-default " + which), "zlim default")
-    lins = [n for n in walk_shallow(cl.node) if isinstance(n, ast.Assign) and norm(n.targets[0]) == "rvals" and isinstance(n.value, ast.Call) and norm(n.value.func).endswith("linspace")]
+    RV = _rvals_name(cl)
+    lins = [n for n in walk_shallow(cl.node) if isinstance(n, ast.Assign) and norm(n.targets[0]) == RV and isinstance(n.value, ast.Call) and norm(n.value.func).endswith("linspace")]
     need(lins, "anchor lost: the non-numeric colour fallback (linspace) in calc_line_colors")
     for ln in lins:
         a = ln.value.args
